@@ -489,6 +489,40 @@ def write_evidence(prop: str, tier: str, seed: int, coverage: dict, assumptions:
     (EVID / f"{prop}.json").write_text(json.dumps(ev, indent=1, sort_keys=True))
 
 
+_POOL_MOD = None
+
+
+def _pool_run(c):
+    try:
+        return ("ok", _POOL_MOD.run_impl(c))
+    except HarnessError as e:
+        return ("harness", str(e))
+    except Exception:
+        return ("crash", traceback.format_exc())
+
+
+def run_impl_all(mod, cases: list) -> list:
+    """Run the implementation on every case (in a fork pool when the module sets PARALLEL: cases are independent)."""
+    global _POOL_MOD
+    if getattr(mod, "PARALLEL", False) and len(cases) > 32:
+        import multiprocessing as mp
+
+        _POOL_MOD = mod
+        with mp.get_context("fork").Pool(NCPU) as pool:
+            res = pool.map(_pool_run, cases, chunksize=max(1, len(cases) // (NCPU * 8)))
+    else:
+        _POOL_MOD = mod
+        res = [_pool_run(c) for c in cases]
+    out = []
+    for c, (tag, val) in zip(cases, res):
+        if tag == "harness":
+            raise HarnessError(val)
+        if tag == "crash":  # a driver bug must not pass silently
+            raise HarnessError(f"run_impl crashed on {c!r}: {val}")
+        out.append(val)
+    return out
+
+
 def run_property(mod, tier: str, seed: int) -> int:
     """Generic check driver.  `mod` is a per-property module providing:
 
@@ -513,14 +547,7 @@ def run_property(mod, tier: str, seed: int) -> int:
 
     # 2. run the implementation on the generated cases
     cases = list(mod.generate(rng, tier))
-    observed = []
-    for c in cases:
-        try:
-            observed.append(mod.run_impl(c))
-        except HarnessError:
-            raise
-        except Exception as e:  # a driver bug must not pass silently
-            raise HarnessError(f"run_impl crashed on {c!r}: {traceback.format_exc()}") from e
+    observed = run_impl_all(mod, cases)
 
     # 3. correspondence inside Coq
     terms, term_idx = [], []
